@@ -75,6 +75,7 @@ var variants = []string{
 	"csca-notafter-eq-st", "csca-notbefore-eq-st",
 	"sid-rdn-order", "sid-string-type", "sid-rdn-order-string-type",
 	"csca-name-two-ous", "sid-rdn-order-two-ous",
+	"csca-name-non-ascii", "sid-string-t61-latin1", "sid-string-bmp-non-ascii", "sid-string-universal",
 	"extra-cert", "extra-cert-csca", "extra-cert-before-ds", "extra-cert-same-issuer-other-serial",
 	"anchors-same-ski-wrong-key-first", "anchors-link-cert-first",
 	"cardsec", "ml-pool", "cardsec-other-ds-earlier-window", "cardsec-other-ds-earlier-window-no-st",
@@ -97,6 +98,7 @@ var groups = map[string][]string{
 	// (signed in 2018: needs the anchor's ordinary validity, hence exclusive with the re-issued anchors)
 	"cardsec-other-ds-earlier-window": {"container", "cscawin"}, "cardsec-other-ds-earlier-window-no-st": {"container", "cscawin"},
 	"csca-name-two-ous": {"name"}, "sid-rdn-order-two-ous": {"sid", "name"},
+	"csca-name-non-ascii": {"name"}, "sid-string-t61-latin1": {"sid", "name"}, "sid-string-bmp-non-ascii": {"sid", "name"}, "sid-string-universal": {"sid", "name"},
 	"digest-null-params": {"digest"}, "si-rsaencryption-oid": {"sigalg"},
 	"pss-salt-20": {"pss"}, "pss-salt-20-der-omitted": {"pss"}, "pss-der-defaults-omitted": {"pss"},
 	"csca-explicit-params": {"cscaparams"},
@@ -129,7 +131,7 @@ func pairs() []string {
 
 func applicable1(k kase, v string) bool {
 	switch v {
-	case "sid-rdn-order", "sid-string-type", "sid-rdn-order-string-type", "sid-rdn-order-two-ous":
+	case "sid-rdn-order", "sid-string-type", "sid-rdn-order-string-type", "sid-rdn-order-two-ous", "sid-string-t61-latin1", "sid-string-bmp-non-ascii", "sid-string-universal":
 		return k.SID == "ias"
 	case "si-rsaencryption-oid":
 		return strings.HasPrefix(k.DS, "rsa") && !strings.HasSuffix(k.DS, "pss")
@@ -205,6 +207,8 @@ func build(k kase) (*built, error) {
 			p.CSCA.Explicit = true
 		case "csca-name-two-ous", "sid-rdn-order-two-ous":
 			p.CSCATwoOUs = true
+		case "csca-name-non-ascii", "sid-string-t61-latin1", "sid-string-bmp-non-ascii", "sid-string-universal":
+			p.CSCANonASCII = true
 		}
 	}
 	is := refpki.NewIssuer(p)
@@ -258,6 +262,14 @@ func applyVariant(v string, is *refpki.Issuer, cs refpki.KeySpec, op *refpki.SOD
 		o.SIDIssuer = is.CSCAName.Reversed()
 	case "sid-string-type":
 		o.SIDIssuer = is.CSCAName.WithStringTag(0x13) // certificate uses UTF8String
+	case "sid-string-t61-latin1":
+		// the certificate carries the name as UTF8String with characters outside ASCII; the SID writes the same
+		// characters in another string type (TeletexString as ISO 8859-1, BMPString, UniversalString)
+		o.SIDIssuer = is.CSCAName.WithStringTag(0x14)
+	case "sid-string-bmp-non-ascii":
+		o.SIDIssuer = is.CSCAName.WithStringTag(0x1E)
+	case "sid-string-universal":
+		o.SIDIssuer = is.CSCAName.WithStringTag(0x1C)
 	case "sid-rdn-order-string-type":
 		o.SIDIssuer = is.CSCAName.Reversed().WithStringTag(0x13)
 	case "csca-notafter-eq-st":
